@@ -62,6 +62,10 @@ Lemma cef_wc r fe fa ce ca ke ka : complete_edges_from_faces (with_corners r fe 
   with_corners (complete_edges_from_faces r) fe fa ce ca ke ka.
 Proof. unfold complete_edges_from_faces, with_corners. cbn. destruct (isnil (faces r)); reflexivity. Qed.
 
+Lemma pv_wc r fe fa ce ca ke ka : prepare_vertices (with_corners r fe fa ce ca ke ka) =
+  with_corners (prepare_vertices r) fe fa ce ca ke ka.
+Proof. reflexivity. Qed.
+
 Lemma pe_wc r fe fa ce ca ke ka : prepare_edges (with_corners r fe fa ce ca ke ka) =
   with_corners (prepare_edges r) fe fa ce ca ke ka.
 Proof. unfold prepare_edges, with_corners. cbn. destruct (existsb _ (edges r)); reflexivity. Qed.
@@ -105,7 +109,7 @@ Lemma prepare_wc c r fe fa ce ca ke ka :
                        (fst (cc_result (cells X) ce ca)) (snd (cc_result (cells X) ce ca)) (fst x) (snd x))).
 Proof.
   rewrite prepare_unfold. unfold stage5, stage2, stage1.
-  destruct (fst c), (snd c); rewrite ?cfc_wc, ?cef_wc, pe_wc, gfc_wc, gcc_wc, gcf_wc; reflexivity.
+  destruct (fst c), (snd c); rewrite ?cfc_wc, ?cef_wc, pv_wc, pe_wc, gfc_wc, gcc_wc, gcf_wc; reflexivity.
 Qed.
 
 (* the three results do not change when a canonical container is replaced by an empty one *)
